@@ -31,7 +31,9 @@ def str_case(rng, w, n, signed, r):
     W = w * n
     M = 1 << W
     H = M >> 1
-    c = rng.randrange(16)
+    c = rng.randrange(17)
+    if c == 16:
+        c = 15
     if c == 0:
         return "empty", b""
     if c == 1:
@@ -50,6 +52,12 @@ def str_case(rng, w, n, signed, r):
         s = "0" * zeros + s
         sign = "-" if neg else rng.choice(["", "", "+"])
         return "numeral%s%s" % ("-lz" if zeros else "", "-neg" if neg else ""), (sign + s).encode()
+    if c == 15:
+        # (limit + delta) * r^j + eps: an intermediate prefix just past the limit, followed by more digits
+        lim2 = rng.choice([M, H]) if signed else M
+        z = (lim2 + rng.randrange(0, 9)) * r ** rng.randrange(0, 45) + rng.randrange(0, 6)
+        neg = signed and rng.random() < 0.5
+        return "limit*r^j", (("-" if neg else rng.choice(["", "+", "+000"])) + numeral(z, r)).encode()
     if c <= 7:
         # leading zeros pushing the digit count around the capacity (radices 2/4/16 count digits)
         cap = len(numeral(lim - 1, r))
@@ -83,7 +91,7 @@ def digits_case(rng, w, n, r):
     if c == 0:
         return "empty", []
     if c <= 3:
-        z = rng.choice([M - 1, M, M + 1, 0, 1, rng.randrange(M), rng.randrange(2 * M)])
+        z = rng.choice([M - 1, M, M + 1, 0, 1, rng.randrange(M), rng.randrange(2 * M), (M + rng.randrange(9)) * r ** rng.randrange(0, 45) + rng.randrange(6)])
         ds = []
         while z:
             ds.append(z % r)
